@@ -66,7 +66,8 @@ impl FastDivision {
         if self.divisor <= 1 {
             return dividend;
         }
-        ((dividend as u64 * self.multiplier) >> (32 + self.shift)) as u32
+        // the multiplier lies in (2^32, 2^33] and shift can be 32: the product needs up to 65 bits and the shift count reaches 64
+        ((dividend as u128 * self.multiplier as u128) >> (32 + self.shift as u32)) as u32
     }
     
     /// Fast modulo operation
